@@ -444,15 +444,32 @@ impl Deb822 {
             });
         }
 
+        // Comments between paragraphs are written back the way the parser
+        // represents them (a line of their own), so that reformatting the
+        // result again finds them with their newline.
+        fn emit_trivia(builder: &mut GreenNodeBuilder, trivia: Vec<SyntaxElement>) {
+            for c in trivia {
+                match c.kind() {
+                    COMMENT => {
+                        builder.start_node(EMPTY_LINE.into());
+                        builder.token(COMMENT.into(), c.as_token().unwrap().text());
+                        builder.token(NEWLINE.into(), "\n");
+                        builder.finish_node();
+                    }
+                    NEWLINE => {}
+                    _ => builder.token(c.kind().into(), c.as_token().unwrap().text()),
+                }
+            }
+        }
+
+        let n_paragraphs = paragraphs.len();
         for (i, paragraph) in paragraphs.into_iter().enumerate() {
             if i > 0 {
                 builder.start_node(EMPTY_LINE.into());
                 builder.token(NEWLINE.into(), "\n");
                 builder.finish_node();
             }
-            for c in paragraph.0.into_iter() {
-                builder.token(c.kind().into(), c.as_token().unwrap().text());
-            }
+            emit_trivia(&mut builder, paragraph.0);
             let new_paragraph = if let Some(ref ws) = wrap_and_sort_paragraph {
                 ws(&paragraph.1)
             } else {
@@ -461,9 +478,13 @@ impl Deb822 {
             inject(&mut builder, new_paragraph.0);
         }
 
-        for c in current {
-            builder.token(c.kind().into(), c.as_token().unwrap().text());
+        if n_paragraphs > 0 && current.iter().any(|c| c.kind() == COMMENT) {
+            // keep trailing comments apart from the last paragraph
+            builder.start_node(EMPTY_LINE.into());
+            builder.token(NEWLINE.into(), "\n");
+            builder.finish_node();
         }
+        emit_trivia(&mut builder, current);
 
         builder.finish_node();
         Self(SyntaxNode::new_root_mut(builder.finish()))
